@@ -6,6 +6,7 @@
 -/
 import CharsetProof.Props.C13
 import CharsetProof.Props.C01
+import CharsetProof.Lemmas.CharsLeNow
 set_option linter.unusedSectionVars false
 namespace Charset
 variable {E L : Type} [DecidableEq E]
@@ -65,7 +66,7 @@ theorem probeChunks_fit_lazy {W : World E L} {T : Tables E} {c : Ctx E} {e : E} 
     page (`hne`, proved for table codecs: exactly one character per byte). -/
 theorem C13_chaos_of_text_all_sizes {W : World E L} {T : Tables E} {sort : Sorter E L}
     (hperm : ∀ l, (sort l).Perm l) (hmb : ∀ em ∈ T.marks, T.isMultiByte em.1 = true) (laws : LazyLaws W T)
-    (hchars : ∀ e x t, W.decode e x = .ok (some t) → t.length ≤ x.length)
+    (hchars : ∀ e x t, e ∈ T.supported → W.decode e x = .ok (some t) → t.length ≤ x.length)
     (hne : ∀ e x t, e ∈ T.supported → T.isMultiByte e = false → W.decode e x = .ok (some t) → x ≠ [] → t ≠ [])
     {b : Bytes} {s : Settings} {incl excl : List E}
     (hincl : canonList T.ianaName s.incl = .ok incl) (hexcl : canonList T.ianaName s.excl = .ok excl)
@@ -161,10 +162,9 @@ theorem nonEmpty_now (o : Oracle) : ∀ e x t, e ∈ tablesNow.supported → tab
     simp at this
     exact hxne (List.eq_nil_of_length_eq_zero this.symm)
 
-/-- **C13 for the current tree, every size**: with the modelled single-byte codecs the only remaining
-    hypothesis is the character/byte bound of the opaque (CJK) decoders -/
+/-- **C13 for the current tree, every size**: every decoder of a supported encoding is a Lean definition (single-byte tables,
+    UTF-8, UTF-16, the multi-byte legacy decoders of Model/Cjk.lean): no hypothesis about the world is left -/
 theorem C13_chaos_of_text_current (o : Oracle)
-    (hchars : ∀ e x t, (worldNow o).decode e x = .ok (some t) → t.length ≤ x.length)
     {b : Bytes} {s : Settings} {incl excl : List Name}
     (hincl : canonList ianaNow s.incl = .ok incl) (hexcl : canonList ianaNow s.excl = .ok excl)
     (hfit : Fits b s) (hthr : s.thr.isNaN = false)
@@ -172,7 +172,7 @@ theorem C13_chaos_of_text_current (o : Oracle)
     (h : fromBytes (worldNow o) tablesNow sortMatches b s = .ok (.ok ms)) :
     ∀ m ∈ ms, ∀ c ∈ m.entries, Fl.ge c.chaos s.thr = false →
       ∃ t, c.text = some t ∧ chaosOfText (worldNow o) t s.thr = .ok c.chaos :=
-  C13_chaos_of_text_all_sizes sortMatches_perm marksMultiByte_now (lazyLaws_now o) hchars (nonEmpty_now o)
+  C13_chaos_of_text_all_sizes sortMatches_perm marksMultiByte_now (lazyLaws_now o) (hchars_now o) (nonEmpty_now o)
     hincl hexcl hfit hthr hb h
 
 end Charset
